@@ -469,6 +469,26 @@ C14(e, pre, post, mon) ==
        \cup If(post.fprops # pre.fprops \/ post.gov # pre.gov, "C14: closed proposals or parameters changed at the beginning of a block")
   ELSE {}
 
+
+\* The same judged on what really happened: `miss` holds, for every bonded validator, the heights it did not sign since its
+\* record exists (folded over the recorded BeginBlock calls by the trace specification).  The record keeps only the marks
+\* of the window in force when they were last trimmed; after governance ENLARGES the window, misses that are inside the
+\* new window may be gone from the record.
+C14True(e, pre, post, miss) ==
+  IF e.ev = "BeginBlock" THEN
+    LET g == pre.gov
+        H == post.h
+        sh == H - 1
+        lo == IF sh - g.signedBlocksWindow < 0 THEN 0 ELSE sh - g.signedBlocksWindow
+        slashed == SlashAll(pre.delegs, e.evidence, g.slashRatio)
+        absent == {e.votes[i].v : i \in {j \in 1..Len(e.votes) : ~e.votes[j].signed}}
+        Truth(v) == (IF v \in DOMAIN miss THEN miss[v] ELSE {}) \cup {sh}
+        should == {v \in absent \cap DOMAIN slashed :
+                     g.signedBlocksWindow - Cardinality({x \in Truth(v) : x >= lo /\ x <= sh}) < g.minSignedBlocks}
+    IN If(\E v \in should : v \in DOMAIN post.delegs /\ ~Jailed(slashed[v], H, g),
+          "C14: a validator whose signed blocks within the signing window are below the minimum stayed bonded: its record no longer holds all the misses inside the window")
+  ELSE {}
+
 ---------------------------------------------------------------------------
 (* C15 - governance *)
 
